@@ -19,6 +19,8 @@ Line formats (harness = H, model driver = D):
        -> S size ; per grant: g tid kind [result] | head tail | contents ; F | ... stuck tids
   LF cap hi | ops t0 | ops t1 ... | schedule (digits)           (D: LF cap | ...)   ops: e<v>, d, m
        -> per grant: g tid kind [result] | tail position | contents ; F | ...
+  DQ | <shep>e<v> | <shep>t<target>,<v> | <shep>d | <shep>m ...   sequential qdqueue script, one task per operation pinned to <shep>
+       -> S n | q0 | q1 ... ; per op: r actual-shep op result | q0 | q1 ... ; F        (oracle only)
   M4 kind nprod ncons per blocking ring perturb -> C lines + F line
 """
 import json
@@ -139,6 +141,128 @@ def gen_hs(rng, nw, flmax):
     return dict(mode="HS", me=me, slots=slots, fl=fl, consistent=consistent)
 
 
+def dq_steal_refill(ns, home=0):
+    """corpus scenario: elements on the home sub-queue are taken by one dequeue from every other shepherd (their last_consumed
+    then names the home shepherd); one element is placed on every other sub-queue; the home shepherd drains until NULL"""
+    ops = ["%de%d" % (home, 100 + k) for k in range(1, ns)]
+    ops += ["%dd" % k for k in range(ns) if k != home]
+    ops += ["%dt%d,%d" % (home, k, 200 + k) for k in range(ns) if k != home]
+    ops += ["%dm" % home] + ["%dd" % home] * (ns + 1) + ["%dm" % home]
+    return dict(mode="DQ", ns=ns, ops=ops, corpus="dq-steal-refill")
+
+
+def gen_dq(rng, ns):
+    """sequential qdqueue scripts that build advertisement / last_consumed state: fills, steals from other shepherds,
+    refills elsewhere, drains from one shepherd until NULL"""
+    ops = []
+    seq = [0]
+    out = [0]
+
+    def val():
+        seq[0] += 1
+        out[0] += 1
+        return 1000 + seq[0]
+
+    def drain(sh):
+        ops.extend(["%dd" % sh] * (out[0] + 2))
+        out[0] = 0
+    for _ in range(rng.range(1, 4)):
+        phase = rng.below(5)
+        if phase == 0:      # fill one sub-queue (second and later enqueues on a non-empty queue advertise), others steal
+            h = rng.below(ns)
+            for _ in range(rng.range(1, ns + 3)):
+                ops.append("%de%d" % (h, val()))
+            for k in rng.shuffle(range(ns)):
+                if k != h and rng.chance(3, 4):
+                    ops.extend(["%dd" % k] * rng.range(1, 2)); out[0] = max(0, out[0] - 1)
+        elif phase == 1:    # refill elsewhere with enqueue_there
+            src = rng.below(ns)
+            for k in rng.shuffle(range(ns)):
+                if rng.chance(2, 3):
+                    for _ in range(rng.range(1, 3)):
+                        ops.append("%dt%d,%d" % (src, k, val()))
+        elif phase == 2:    # random mix
+            for _ in range(rng.range(3, 14)):
+                sh = rng.below(ns)
+                k = rng.weighted([("e", 35), ("t", 20), ("d", 35), ("m", 10)])
+                if k == "e":
+                    ops.append("%de%d" % (sh, val()))
+                elif k == "t":
+                    ops.append("%dt%d,%d" % (sh, rng.below(ns), val()))
+                else:
+                    ops.append("%d%s" % (sh, k))
+        elif phase == 3:    # drain from one shepherd until NULL, then look again
+            sh = rng.below(ns)
+            ops.append("%dm" % sh); drain(sh); ops.append("%dm" % sh)
+        else:               # every shepherd dequeues once (round of steals), then empties
+            for k in rng.shuffle(range(ns)):
+                ops.append("%dd" % k)
+            ops.append("%dm" % rng.below(ns))
+    sh = rng.below(ns)
+    drain(sh)
+    ops.append("%dm" % sh)
+    return dict(mode="DQ", ns=ns, ops=ops)
+
+
+def dq_oracle(c, lines):
+    """sequential (one operation at a time) => exact: a dequeue returns the head of some sub-queue (its own one when that is
+    non-empty), NULL only when every sub-queue is empty; enqueues append; nothing else changes; this is the acceptance
+    condition of Dq.v (attempts = own :: arbitrary extras ++ complete allsheps pass) read sequentially"""
+    if not lines or lines[-1] != "F" or not lines[0].startswith("S "):
+        return "hang or crash"
+    def qs_of(l):
+        return [[int(x) for x in seg.split()] for seg in l.split("|")[1:]]
+    cur = qs_of(lines[0])
+    ns = len(cur)
+    rs = lines[1:-1]
+    if len(rs) != len(c["ops"]):
+        return "%d results for %d operations" % (len(rs), len(c["ops"]))
+    enq, deq = [], []
+    for op, l in zip(c["ops"], rs):
+        h = l.split("|")[0].split()
+        if h[1] == "CONFIG":
+            return "configuration"
+        act, kind, res = int(h[1]), h[2], int(h[3])
+        new = qs_of(l)
+        exp = [list(q) for q in cur]
+        body = op.lstrip("0123456789")
+        if kind in "et":
+            v = int(body[1:].split(",")[-1])
+            tgt = int(body[1:].split(",")[0]) if kind == "t" else act
+            if res != 0:
+                return "%s returned %d" % (op, res)
+            exp[tgt].append(v); enq.append(v)
+        elif kind == "d":
+            if res == 0:
+                if any(cur):
+                    return "dequeue on shepherd %d returned NULL while sub-queues hold %s (operation %s, sequential run)" % (
+                        act, [q for q in cur if q], op)
+            else:
+                src = [i for i in range(ns) if cur[i] and cur[i][0] == res]
+                if not src:
+                    return "dequeue returned %d which is not at the head of any sub-queue %s" % (res, cur)
+                if cur[act] and src[0] != act and act not in src:
+                    return "dequeue on shepherd %d passed over its own non-empty sub-queue" % act
+                i = act if act in src else src[0]
+                exp[i].pop(0)
+                if res in deq:
+                    return "element %d delivered twice" % res
+                deq.append(res)
+        elif kind == "m":
+            if res == 0 and not any(cur):
+                return "qdqueue_empty = 0 with every sub-queue empty"
+            if res == 1 and cur[act]:
+                return "qdqueue_empty = 1 on shepherd %d whose own sub-queue holds %s" % (act, cur[act])
+        if new != exp:
+            return "after %s the sub-queues are %s, expected %s" % (op, new, exp)
+        cur = new
+    if any(cur):
+        return "after the final drain %s remain queued" % [q for q in cur if q]
+    if sorted(deq) != sorted(enq):
+        return "delivered elements differ from enqueued ones"
+    return None
+
+
 def gen_m1(rng, n):
     cases = []
     for e in [0, 1, 2, 7, 8, 9, 63, 64, 65, 127, 128, 129, 4096, (1 << 32) - 10, (1 << 32) + 5]:
@@ -181,6 +305,8 @@ def h_line(c):
         return "SW %d %d %d | %s | %s | %s" % (c["elements"], c["override"], c["cap"], " ".join(c["pp"]), " ".join(c["cp"]), c["sched"])
     if m == "LF":
         return "LF %d %d | %s | %s" % (c["cap"], c["hi"], " | ".join(" ".join(p) for p in c["progs"]), c["sched"])
+    if m == "DQ":
+        return "DQ | " + " ".join(c["ops"])
     if m == "M4":
         return "M4 %d %d %d %d %d %d %d" % (c["kind"], c["nprod"], c["ncons"], c["per"], c["blocking"], c["ring"], c["pert"])
     raise ValueError(m)
@@ -204,7 +330,7 @@ def split_cases(cases, lines):
         if pos >= len(lines):
             out.append(None)
             continue
-        if c["mode"] in ("SW", "LF", "M4"):
+        if c["mode"] in ("SW", "LF", "M4", "DQ"):
             j = pos
             while j < len(lines) and not lines[j].startswith("F") and lines[j] != "TIMEOUT":
                 j += 1
@@ -427,7 +553,7 @@ def run(ctx):
     nontriv = set()
     hist = {}
     samples = []
-    stats = dict(sw_wraps=0, sw_stuck=0, lf_scans=0, lf_reuse=0, hs_far_pointers=0, skipped_after_stuck=0, m4_elements=0)
+    stats = dict(sw_wraps=0, sw_stuck=0, lf_scans=0, lf_reuse=0, hs_far_pointers=0, skipped_after_stuck=0, dq_ops=0, dq_acceptor_queries=0, m4_elements=0)
 
     def bump(k):
         hist[k] = hist.get(k, 0) + 1
@@ -438,7 +564,7 @@ def run(ctx):
         r = rng.fork()
         cases = []
         if ns == 3:
-            cases += load_corpus()
+            cases += [c for c in load_corpus() if c["mode"] != "DQ"]
             cases += gen_m1(r, 150 if quick else 1500)
             cases += [gen_sw(r) for _ in range(100 if quick else 1500)]
             cases += [gen_sw(r, big=True) for _ in range(3 if quick else 25)]
@@ -532,6 +658,51 @@ def run(ctx):
                 samples.append(dict(script=h_line(c)[:300], grants=len(ig), last=il[-2:]))
 
     timing["m1_m3"] = round(time.time() - t0, 1); t0 = time.time()
+    # ------------------------------------------------ M2-style sequential qdqueue scripts on 3..5 shepherds x 1 worker.  Dq.v abstracts the
+    # advertisement / last_consumed heuristics, so WHICH other sub-queue a steal takes from is not predicted: every dequeue is
+    # judged by the extracted acceptor Dq.seq_deq_ok (NULL only if all sub-queues are empty; own head first; else some head), the
+    # evolution of the white-box sub-queue dumps is checked exactly
+    for ns in (3, 4, 5):
+        r = rng.fork()
+        cases = [c for c in load_corpus() if c["mode"] == "DQ" and c.get("ns") == ns]
+        cases += [x for x in (dq_steal_refill(ns, h) for h in range(ns)) if x["ops"] not in [c["ops"] for c in cases]]
+        cases += [gen_dq(r, ns) for _ in range(40 if quick else 400)]
+        hdr, hout, rc = run_harness(exe, cases, ns, timeout=600)
+        himpl = split_cases(cases, hout)
+        # every dequeue step is judged by the extracted acceptor Dq.seq_deq_ok on the sub-queues dumped before the step
+        q_lines, q_where = [], []
+        for ci, il in enumerate(himpl):
+            if not il or il[-1] != "F":
+                continue
+            for k in range(1, len(il) - 1):
+                h = il[k].split("|")[0].split()
+                if len(h) >= 4 and h[2] == "d":
+                    q_lines.append("DS %s %s |%s" % (h[1], h[3], il[k - 1].split("|", 1)[1]))
+                    q_where.append((ci, k))
+        rcq, qout, qerr = core.run_lines(drv, q_lines, timeout=300) if q_lines else (0, [], "")
+        if len(qout) != len(q_lines):
+            mismatches.append(("model driver answered %d of %d DS queries" % (len(qout), len(q_lines)), dict(config="%dx1" % ns)))
+        refused = {}
+        for (ci, k), a in zip(q_where, qout):
+            if a.strip() != "DS 1":
+                refused.setdefault(ci, k)
+        stats["dq_acceptor_queries"] += len(q_lines)
+        for ci, (c, il) in enumerate(zip(cases, himpl)):
+            evals += 1
+            bump("DQ")
+            tag = dict(c, config="%dx1" % ns)
+            why = dq_oracle(c, il)
+            if ci in refused and not why:
+                why = "Dq.seq_deq_ok refuses step %d: %s" % (refused[ci], il[refused[ci]])
+            if why:
+                rejects.append((None, "sequential qdqueue script on %d shepherds: %s" % (ns, why), dict(tag, impl_tail=(il or [])[-6:])))
+            else:
+                steals = sum(1 for o, l in zip(c["ops"], (il or [])[1:]) if o.endswith("d") and l.split()[3] != "0"
+                             and l.split()[1] != o[:len(o) - 1])
+                if any(o.endswith("d") for o in c["ops"]) and len(c["ops"]) > 6:
+                    nontriv.add(("DQ", h_line(c)))
+                stats["dq_ops"] += len(c["ops"])
+    timing["dq"] = round(time.time() - t0, 1); t0 = time.time()
     # ------------------------------------------------ M4: free-running tasks
     m4_cfg = [(1, 1), (2, 2), (4, 1)]
     per = 2000 if quick else 20000
@@ -619,13 +790,13 @@ def replay(ctx, path):
     hdr, hout, rc = run_harness(exe, [case], int(cfg[0]), int(cfg[1]))
     print("--- implementation (%s):" % os.environ.get("VERIF_REPO", "/repo"))
     print("\n".join(hout[-40:]))
-    if case["mode"] != "M4":
+    if case["mode"] not in ("M4", "DQ"):
         mout = run_model(drv, [case], int(hdr[4]), int(hdr[5]))
         print("--- model:")
         print("\n".join(mout[-40:]))
         d = core.first_diff(grants(hout), grants(mout))
         print("--- first difference at grant:", d)
-    why = {"SW": sw_oracle, "LF": lf_oracle}.get(case["mode"], lambda c, l: None)(case, hout)
+    why = {"SW": sw_oracle, "LF": lf_oracle, "DQ": dq_oracle}.get(case["mode"], lambda c, l: None)(case, hout)
     if case["mode"] == "M4":
         why = m4_oracle(case, hout)[0]
     print("--- oracle:", why)
